@@ -23,7 +23,7 @@ RULE = ('cases: seeded declaration histories: 0-5 parameters declared through th
         'KeyError and leave build() unchanged. Non-trivial history: product of >=2 factors of length >=2 with a repeated value or a '
         'string/scalar factor, plus >=1 rejected op; distinct by (declaration signature, op trace). Products capped at 2000 in the histories; a scale regime builds products of 4 097-10 000 combinations and declarations of 1 100-2 100 parameters.')
 ASSUMPTIONS = ['collections are re-iterable (no one-shot iterators)', 'values compare with == (no NaN)']
-FLOORS = {'quick': {'edited_collections_declared_again': 380, 'bag_factors': 215, 'builds_compared': 10000, 'empty_factor_products': 500, 'no_parameter_products': 100, 'string_factors': 800,
+FLOORS = {'quick': {'builds_interrupted_by_a_failing_collection': 287, 'edited_collections_declared_again': 380, 'bag_factors': 215, 'builds_compared': 10000, 'empty_factor_products': 500, 'no_parameter_products': 100, 'string_factors': 800,
                     'scalar_factors': 800, 'repeated_value_factors': 600, 'numpy_factors': 600, 'range_factors': 600,
                     'rejected_nonstr_name': 1000, 'rejected_duplicate': 760, 'rejected_unknown_removal': 1000,
                     'sibling_list_checks': 500, 'big_builds': 6, 'declarations_with_1000_plus_parameters': 3, 'constructor_declarations': 709, 'rejected_constructor': 100, 'reach:Batching.ParameterList.build': 10000},
@@ -64,7 +64,7 @@ def factor(value):
         return [value]
     if isinstance(value, (list, tuple, range)):
         return list(value)
-    if type(value).__name__ == 'Bag':
+    if type(value).__name__ in ('Bag', 'MoodyBag'):
         return list(value.items)
     if isinstance(value, np.ndarray):
         return [value[i] for i in range(len(value))]
@@ -174,6 +174,27 @@ def case_history(ctx, case):
             if kind in ('string', 'scalar'):
                 flags.add('single')
             trace.append(('add', n, kind, repr(v)[:40]))
+        elif x < 0.60 and new_name() is not None:
+            # a declared collection whose iteration FAILS during one build (at once or part-way; TypeError, other exceptions, a
+            # KeyboardInterrupt-like): the caller catches whatever comes out and carries on - the list still accepts valid operations and
+            # the next build is the full product of what is declared
+            from vlib import faults, reps
+            n = new_name()
+            items = [rng.choice([0, 1, 2, 'x', 2.5]) for _ in range(rng.randint(1, 3))]
+            cls = rng.choice([TypeError, TypeError, faults.Interrupt, faults.Boom, KeyError, StopIteration])
+            moody = reps.MoodyBag(items, cls, after=rng.randint(0, len(items)))
+            if not size_ok([(n, moody)]):
+                continue
+            pl.add_parameter(n, moody)
+            decl.append((n, moody))
+            _, err = faults.attempt(pl.build)
+            ctx.count('builds_interrupted_by_a_failing_collection')
+            ctx.count('bag_factors')
+            trace.append(('add-moody', n, cls.__name__, type(err).__name__))
+            if rng.random() < 0.5 and new_name() is not None:
+                n2 = new_name()
+                pl.add_parameter(n2, 'after the failure')          # a valid operation right after the interrupted build
+                decl.append((n2, 'after the failure'))
         elif x < 0.65 and decl:
             n = rng.choice(decl)[0]
             pl.remove_parameter(n)
